@@ -123,6 +123,29 @@ def check_rejects(rng):
     for nm, box in (('box-outside-frame', (1.0, 1.0, 1.0, 9.0, 3.0, 3.0, 'a')), ('box-negative', (-2.0, 1.0, 1.0, 3.0, 3.0, 3.0, 'a')),
                     ('box-zero-extent', (2.0, 1.0, 1.0, 2.0, 3.0, 3.0, 'a')), ('box-inverted', (3.0, 1.0, 1.0, 2.0, 3.0, 3.0, 'a'))):
         expect(nm, ValueError, lambda: flip(bbox_params=bp)(image=img, bboxes=[box]))
+    # the same out-of-frame / degenerate boxes in every box format (frame 6 x 5 x 4: rows, cols, slices)
+    H_, W_, D_ = 6, 5, 4
+
+    def to_fmt(b, fmt):
+        x1, y1, z1, x2, y2, z2 = b
+        if fmt == 'coco_3d':
+            return (x1, y1, z1, x2 - x1, y2 - y1, z2 - z1, 'a')
+        if fmt == 'yolo_3d':
+            return ((x1 + x2) / 2 / W_, (y1 + y2) / 2 / H_, (z1 + z2) / 2 / D_, (x2 - x1) / W_, (y2 - y1) / H_, (z2 - z1) / D_, 'a')
+        if fmt == 'dicaugment_3d':
+            return (x1 / W_, y1 / H_, z1 / D_, x2 / W_, y2 / H_, z2 / D_, 'a')
+        return (x1, y1, z1, x2, y2, z2, 'a')
+    for fmt in ('pascal_voc_3d', 'coco_3d', 'yolo_3d', 'dicaugment_3d'):
+        fp = A.BboxParams(fmt)
+        for nm, box in (('sticks-out-right', (2.0, 1.0, 1.0, 6.5, 3.0, 3.0)), ('sticks-out-left', (-1.0, 1.0, 1.0, 2.0, 3.0, 3.0)),
+                        ('sticks-out-bottom', (1.0, 2.0, 1.0, 3.0, 7.0, 3.0)), ('sticks-out-far', (1.0, 1.0, 2.0, 3.0, 3.0, 4.5)),
+                        ('sticks-out-near', (1.0, 1.0, -0.5, 3.0, 3.0, 2.0))):
+            expect('box-%s-%s' % (nm, fmt), ValueError, lambda: flip(bbox_params=fp)(image=img, bboxes=[to_fmt(box, fmt)]))
+        ok_box = to_fmt((1.0, 1.0, 1.0, 4.0, 5.0, 3.0), fmt)
+        try:
+            flip(bbox_params=fp)(image=img, bboxes=[ok_box])
+        except Exception as e:  # noqa
+            out.append(('box-inside-%s' % fmt, '%s: %s' % (type(e).__name__, str(e)[:100]), 'accepted'))
     expect('missing-label-field', ValueError,
            lambda: flip(bbox_params=A.BboxParams('pascal_voc_3d', label_fields=['cls']))(image=img, bboxes=[(1.0, 1.0, 1.0, 3.0, 3.0, 3.0)]))
     expect('missing-keypoint-label-field', ValueError,
